@@ -10,6 +10,9 @@ CONSTANTS
   WriteUnderLock = TRUE
   SingleWrite = TRUE
   RebindOnLarge = FALSE
-INVARIANTS TypeOK BufExclusive MsgOwned ItemsBound NoPanic EveryRecordWritten OneWriter WriterHoldsLock LinesCorrect NoTornLine OneLinePerRecord
+  Fault <- F030
+  DeferUnlock = TRUE
+  StickyError = TRUE
+INVARIANTS TypeOK BufExclusive MsgOwned ItemsBound NoPanic EveryRecordWritten Returns CleanAtEnd OneWriter WriterHoldsLock LinesCorrect NoTornLine OneLinePerRecord
 PROPERTIES Termination
 CHECK_DEADLOCK TRUE
